@@ -30,6 +30,7 @@ type accessOut struct {
 	Holding []string `json:"holding"`
 	Chain   []string `json:"chain"`
 	Exempt  string   `json:"exempt,omitempty"`
+	Missing string   `json:"missing_lock,omitempty"` // the mutex that guards the field
 }
 
 type result struct {
@@ -180,6 +181,10 @@ func (a *analyzer) result() *result {
 			}
 		}
 		o.Chain = a.chainStrings(rec.chain, "")
+		o.Missing = fi.guard
+		if fi.owned {
+			o.Missing += " (the mutex of the struct that holds the object)"
+		}
 		if why := a.fieldExemption(rec.field, rec.kind, shortName(rec.fn.String())); why != "" {
 			o.Exempt = why
 			r.Exempted = append(r.Exempted, o)
@@ -202,6 +207,9 @@ func (a *analyzer) result() *result {
 				g = structMutexes[fi.owner][0]
 			}
 			how := "inferred"
+			if fi.owned {
+				how = "owner" // guarded by the mutex of the struct its objects live in
+			}
 			if fi.forced {
 				how = "configured"
 			}
@@ -284,6 +292,8 @@ func (a *analyzer) fieldExemption(field, kind, fn string) string {
 		}
 	}
 	switch ex.Kind {
+	case "known_finding":
+		return "known finding: " + ex.Why
 	case "self_synchronized":
 		return "self_synchronized: " + ex.Why
 	case "immutable":
@@ -390,7 +400,7 @@ func emitCoq(r *result) string {
 			continue
 		}
 		b := "0"
-		if ex.Kind == "self_synchronized" {
+		if ex.Kind == "self_synchronized" || ex.Kind == "known_finding" {
 			b = "2"
 		} else if ex.Kind == "immutable_addr_ok" {
 			b = "1"
